@@ -519,4 +519,28 @@ theorem nonvacuous_uncoupled :
   have hr := run_trichotomy_uncoupled xInp 0 (-1) h.1 h.2.1 hk h0 h1 h2 1 (xS xV1) (-5) hc1 hT1
   exact hr.2.2 0 xV1 (by simp [xS])
 
+/-- **`run_trichotomy_below_liquidus` applied to a run with ice** (the same concrete run: start
+`−3 ≤ T_eq_l = −1`, shelf at `−5`; `StaticSide` from `C06.x_staticSide`): hypotheses satisfiable,
+conclusion = the solidification transition column 1 → 2 and the step-function link. -/
+theorem nonvacuous_below_liquidus :
+    (∃ v', (step Snow.FlakeExRun.xParams 0 1 (-5) (Snow.FlakeExRun.xS Snow.FlakeExRun.xV1)).vials[0]? = some v' ∧
+      IsTransition Snow.FlakeExRun.xPhys Snow.FlakeExRun.xParams (1 == 0) 1 (-5)
+        (Snow.FlakeExRun.xS Snow.FlakeExRun.xV1) 0 Snow.FlakeExRun.xV1 v') ∧
+    (runWith Snow.FlakeExRun.xInp 0).traj[2]? =
+      some (step Snow.FlakeExRun.xParams 0 1 (-5) (Snow.FlakeExRun.xS Snow.FlakeExRun.xV1)) := by
+  open Snow.FlakeExRun in
+  have h := Snow.C06.nonvacuous_run
+  have hst : Snow.C06.Stable xPhys xInp.p xInp.nVials xInp.oc.stop xPhys.TeqL := by
+    rw [x_TeqL]; exact h.2.1
+  have h0 : xInp.oc.start ≤ xInp.T0 := by simp only [xInp]; norm_num
+  have h1 : xInp.T0 ≤ xPhys.TeqL := by rw [x_TeqL]; simp only [xInp]; norm_num
+  have h2 : xInp.oc.start ≤ xPhys.TeqL := by rw [x_TeqL]; simp [xInp]
+  have hc1 : (runWith xInp 0).traj[1]? = some (xS xV1) := by
+    rw [← Array.getElem?_toList, x_traj]; rfl
+  have hT1 : (runWith xInp 0).Tshelf[1]? = some (-5 : ℝ) := by rw [x_Tshelf]; rfl
+  have hr := run_trichotomy_below_liquidus xInp 0 h.1 hst Snow.C06.x_staticSide h0 h1 h2 1 (xS xV1) (-5) hc1 hT1
+  have hsz : 1 + 1 < (runWith xInp 0).traj.size := by
+    rw [← Array.length_toList, x_traj]; simp
+  exact ⟨hr.2.2 0 xV1 (by simp [xS]), hr.1 hsz⟩
+
 end Snow.C01
